@@ -389,6 +389,14 @@ func run(c *core.Ctx) error {
 		}
 	}
 
+	// ---------------- 0b. readers against a fast writer, in a process of its own
+	runStorm(c)
+
+	// ---------------- 0c. Close that reports an error still closes
+	if err := closeFails(c); err != nil {
+		return err
+	}
+
 	// ---------------- 1. the model decides (in parallel with the stress)
 	// VERIF_C11_DEV=stress is a development aid (mutant trials): only the stress + trace validation
 	if os.Getenv("VERIF_C11_DEV") == "race" { // development aid: only the race-detector part
